@@ -491,3 +491,125 @@ pub fn xzblk_check_crc32_empty() {
 pub fn xzblk_index_one_record_crc() {
     one_record_index::<false>()
 }
+
+// ---------------------------------------------------------------------------------------
+// read_block as a whole, on a concrete layout: block header (size byte HS, flags 0, filter
+// 0x21, one property byte, zero padding, CRC32), an LZMA2 payload made of one uncompressed chunk
+// with 2 symbolic bytes, block padding, no check. DEV selects one concrete deviation.
+//   0 none | 1 header CRC wrong | 2 block padding byte non-zero | 3 header padding non-zero
+// ---------------------------------------------------------------------------------------
+fn read_block_unit<const HS: usize, const DEV: usize>() {
+    let mut t = Tape::<16>::new();
+    let d0 = t.u8();
+    let d1 = t.u8();
+    let hlen = HS * 4; // header bytes before the CRC (including the size byte)
+    let mut f = [0u8; 300];
+    f[0] = HS as u8;
+    f[1] = 0x00;
+    f[2] = 0x21;
+    f[3] = 0x01;
+    f[4] = 0x16;
+    if DEV == 3 {
+        f[6] = 1;
+    }
+    let c = ref_crc32(&f[0..hlen]).to_le_bytes();
+    f[hlen] = c[0] ^ (if DEV == 1 { 1 } else { 0 });
+    f[hlen + 1] = c[1];
+    f[hlen + 2] = c[2];
+    f[hlen + 3] = c[3];
+    let p = hlen + 4;
+    // LZMA2: uncompressed chunk with dictionary reset, 2 bytes, then end
+    f[p] = 1;
+    f[p + 1] = 0;
+    f[p + 2] = 1;
+    f[p + 3] = d0;
+    f[p + 4] = d1;
+    f[p + 5] = 0;
+    // unpadded size = hlen + 4 + 6 ; padding to a multiple of four
+    let unpadded = hlen + 10;
+    let pad = (4 - unpadded % 4) % 4;
+    if DEV == 2 {
+        f[p + 6] = 7;
+    }
+    let total = unpadded + pad;
+    f[total] = 0xEE; // next byte (index indicator in a real file): must stay unread
+    let mut rd = ArrReader::<300>::new(f, total + 1);
+    let mut sink = RecSink::<4>::new();
+    let mut records: Vec<Record> = Vec::with_capacity(2);
+    let (ok, counted) = {
+        let mut ci = util::CountBufRead::new(&mut rd);
+        let hb = ci.read_u8();
+        forget(hb);
+        let r = read_block(&mut ci, &mut sink, CheckMethod::None, &mut records, HS as u8);
+        let ok = r.is_ok();
+        forget(r);
+        (ok, ci.count())
+    };
+    if DEV == 0 {
+        vassert!(ok, "read_block: a well-formed block decodes");
+        vassert!(sink.len == 2 && sink.buf[0] == d0 && sink.buf[1] == d1, "read_block: the block's content is written to the output");
+        vassert!(records.len() == 1, "read_block: one index record per block");
+        vassert!(records[0].unpadded_size == unpadded as u64 && records[0].unpacked_size == 2, "read_block: record = unpadded block size and uncompressed size");
+        vassert!(counted == total && rd.pos == total, "read_block: consumes header, payload and padding, nothing more");
+    } else {
+        vassert!(!ok, "read_block: a wrong header CRC / non-zero padding is rejected");
+        vassert!(sink.len == 0, "read_block: nothing is written for a rejected block");
+    }
+    vcover!(true, "end_reached");
+    forget(records);
+}
+
+//@ harness props=C03,C06,C07 tier=thorough optional=yes unwind=6 unwindset=update_table:300,ref_crc32.0:10,ref_crc32.1:300,default_read_exact:4,flush_zero_padding:4,decompress:4,spec_fill:8200,read_block_unit:6 mem_gb=12 timeout=900 native=no
+//@ bound: read_block as a whole on a concrete layout: header size byte 3, one uncompressed LZMA2 chunk of 2 symbolic bytes, check None; well-formed
+#[cfg_attr(kani, kani::proof)]
+#[cfg_attr(kani, kani::stub(std::fmt::format, crate::verif_common::stub_format))]
+#[cfg_attr(kani, kani::stub(std::io::Error::is_interrupted, crate::verif_common::stub_not_interrupted))]
+#[cfg_attr(kani, kani::stub(crate::decode::lzma::DecoderState::new, crate::decode::stream::verif_h::new_scripted_lit))]
+#[cfg_attr(kani, kani::stub(crate::decode::lzbuffer::LzAccumBuffer::from_stream, crate::decode::lzbuffer::verif_h::accum_from_stream_with_capacity))]
+pub fn xzblk_read_block_hs3_dev0() {
+    read_block_unit::<3, 0>()
+}
+
+//@ harness props=C03,C06,C07 tier=thorough optional=yes unwind=6 unwindset=update_table:300,ref_crc32.0:10,ref_crc32.1:300,default_read_exact:4,flush_zero_padding:4,decompress:4,spec_fill:8200,read_block_unit:6 mem_gb=12 timeout=900 native=no
+//@ bound: read_block as a whole on a concrete layout: header size byte 3, one uncompressed LZMA2 chunk of 2 symbolic bytes, check None; header CRC32 off by one bit
+#[cfg_attr(kani, kani::proof)]
+#[cfg_attr(kani, kani::stub(std::fmt::format, crate::verif_common::stub_format))]
+#[cfg_attr(kani, kani::stub(std::io::Error::is_interrupted, crate::verif_common::stub_not_interrupted))]
+#[cfg_attr(kani, kani::stub(crate::decode::lzma::DecoderState::new, crate::decode::stream::verif_h::new_scripted_lit))]
+#[cfg_attr(kani, kani::stub(crate::decode::lzbuffer::LzAccumBuffer::from_stream, crate::decode::lzbuffer::verif_h::accum_from_stream_with_capacity))]
+pub fn xzblk_read_block_hs3_dev1() {
+    read_block_unit::<3, 1>()
+}
+
+//@ harness props=C03,C06,C07 tier=thorough optional=yes unwind=6 unwindset=update_table:300,ref_crc32.0:10,ref_crc32.1:300,default_read_exact:4,flush_zero_padding:4,decompress:4,spec_fill:8200,read_block_unit:6 mem_gb=12 timeout=900 native=no
+//@ bound: read_block as a whole on a concrete layout: header size byte 3, one uncompressed LZMA2 chunk of 2 symbolic bytes, check None; non-zero block padding byte
+#[cfg_attr(kani, kani::proof)]
+#[cfg_attr(kani, kani::stub(std::fmt::format, crate::verif_common::stub_format))]
+#[cfg_attr(kani, kani::stub(std::io::Error::is_interrupted, crate::verif_common::stub_not_interrupted))]
+#[cfg_attr(kani, kani::stub(crate::decode::lzma::DecoderState::new, crate::decode::stream::verif_h::new_scripted_lit))]
+#[cfg_attr(kani, kani::stub(crate::decode::lzbuffer::LzAccumBuffer::from_stream, crate::decode::lzbuffer::verif_h::accum_from_stream_with_capacity))]
+pub fn xzblk_read_block_hs3_dev2() {
+    read_block_unit::<3, 2>()
+}
+
+//@ harness props=C03,C06,C07 tier=thorough optional=yes unwind=6 unwindset=update_table:300,ref_crc32.0:10,ref_crc32.1:300,default_read_exact:4,flush_zero_padding:4,decompress:4,spec_fill:8200,read_block_unit:6 mem_gb=12 timeout=900 native=no
+//@ bound: read_block as a whole on a concrete layout: header size byte 3, one uncompressed LZMA2 chunk of 2 symbolic bytes, check None; non-zero header padding byte
+#[cfg_attr(kani, kani::proof)]
+#[cfg_attr(kani, kani::stub(std::fmt::format, crate::verif_common::stub_format))]
+#[cfg_attr(kani, kani::stub(std::io::Error::is_interrupted, crate::verif_common::stub_not_interrupted))]
+#[cfg_attr(kani, kani::stub(crate::decode::lzma::DecoderState::new, crate::decode::stream::verif_h::new_scripted_lit))]
+#[cfg_attr(kani, kani::stub(crate::decode::lzbuffer::LzAccumBuffer::from_stream, crate::decode::lzbuffer::verif_h::accum_from_stream_with_capacity))]
+pub fn xzblk_read_block_hs3_dev3() {
+    read_block_unit::<3, 3>()
+}
+
+//@ harness props=C03,C06,C07 tier=thorough optional=yes unwind=6 unwindset=update_table:300,ref_crc32.0:10,ref_crc32.1:300,default_read_exact:4,flush_zero_padding:4,decompress:4,spec_fill:8200,read_block_unit:6 mem_gb=12 timeout=900 native=no
+//@ bound: read_block as a whole on a concrete layout: header size byte 64, one uncompressed LZMA2 chunk of 2 symbolic bytes, check None; well-formed, 256-byte block header (size byte 0x40)
+#[cfg_attr(kani, kani::proof)]
+#[cfg_attr(kani, kani::stub(std::fmt::format, crate::verif_common::stub_format))]
+#[cfg_attr(kani, kani::stub(std::io::Error::is_interrupted, crate::verif_common::stub_not_interrupted))]
+#[cfg_attr(kani, kani::stub(crate::decode::lzma::DecoderState::new, crate::decode::stream::verif_h::new_scripted_lit))]
+#[cfg_attr(kani, kani::stub(crate::decode::lzbuffer::LzAccumBuffer::from_stream, crate::decode::lzbuffer::verif_h::accum_from_stream_with_capacity))]
+pub fn xzblk_read_block_hs64_dev0() {
+    read_block_unit::<64, 0>()
+}
